@@ -49,6 +49,17 @@ fn main() {
     // dominate the allocation and time measurements of the monitors
     std::env::set_var("RUST_BACKTRACE", "0");
     std::env::set_var("RUST_LIB_BACKTRACE", "0");
+    if lane != "A" && lane != "V" {
+        // a runaway allocation becomes an allocation failure (process death attributed to the journalled case)
+        // instead of taking the machine down; the sanitizer lanes need the address space for themselves
+        let lim = libc::rlimit {
+            rlim_cur: 24 << 30,
+            rlim_max: 24 << 30,
+        };
+        unsafe {
+            libc::setrlimit(libc::RLIMIT_AS, &lim);
+        }
+    }
     install_panic_hook();
     let started = Instant::now();
     let stack = 1usize << 30; // the case loop runs on a 1 GiB stack; monitors choose smaller ones per case
